@@ -224,6 +224,22 @@ def f_dep_all(sm):
     _qfield(sm, mk_field("legacy", "Legacy"))
 
 
+def f_dep_iface(sm):
+    """deprecated fields on an INTERFACE (default / custom / empty reason), an object that implements them with
+    plain fields, an object whose implementing fields are deprecated too."""
+    deps = [("old1", {"reason": None}), ("old2", {"reason": "use keep"}), ("old3", {"reason": ""})]
+
+    def fields(dep):
+        return [mk_field("keep", "Int")] + [mk_field(n, "Int", deprecation=(d if dep else None)) for n, d in deps]
+
+    _add_type(sm, mk_type("interface", "DepNode", fields=fields(True)))
+    _add_type(sm, mk_type("object", "DepPlain", interfaces=["DepNode"], fields=fields(False)))
+    _add_type(sm, mk_type("object", "DepBoth", interfaces=["DepNode"], fields=fields(True)))
+    _qfield(sm, mk_field("depNode", "DepNode"))
+    _qfield(sm, mk_field("depPlain", "DepPlain"))
+    _qfield(sm, mk_field("depBoth", "DepBoth"))
+
+
 def _dir(name, locations, args=None):
     return {"name": name, "description": None, "locations": list(locations), "args": list(args or [])}
 
@@ -305,6 +321,75 @@ DESCRIPTIONS = {
 }
 
 
+# description content classes that only matter to the printers (enumerated alone and with the element-kind
+# carriers, not with every other feature); lines stay far below the printer's re-wrapping width
+EXTRA_DESCRIPTIONS = {
+    "trail-space": "Markdown hard break  ",
+    "trail-tab": "Ends with a tab\t",
+    "lead-first": "  Indented first line",
+    "lead-later": "First line\n    indented later line\nlast line",
+    "ws-only": "   ",
+    "trail-newline": "Ends with a newline\n",
+    "trail-blank": "Ends with a blank line\n\n",
+    "lead-newline": "\nStarts with a newline",
+    "empty": "",
+    "astral": "No entry \U0001F6AB sign",
+    "ls": "Line\u2028separator",
+    "nbsp": "No\u00a0break space",
+    "tab-inside": "Tab\tinside",
+}
+
+# string content alphabet of DESIGN 4.1, pushed through every place where the schema printers emit a string
+STRING_CONTENTS = {
+    "empty": "",
+    "quote": 'q"q',
+    "backslash": "b\\s",
+    "newline": "n\nl",
+    "tab": "t\tb",
+    "eacute": "\u00e9",
+    "astral": "\U0001F6AB",
+    "ls": "l\u2028s",
+    "nbsp": "n\u00a0b",
+}
+
+
+def _f_string(name):
+    c = STRING_CONTENTS[name]
+    tag = name.capitalize()
+    S = lambda: ["str", c]  # noqa: E731
+
+    def f(sm):
+        dname = "s%sD" % tag
+        sm["directives"].append(
+            _dir(dname, ["FIELD_DEFINITION", "ENUM_VALUE"], [mk_ival("s", "String", default=S()), mk_ival("l", "[String]", default=["list", [S(), ["str", "x"]]])])
+        )
+        _add_type(sm, mk_type("input", "S%sI" % tag, fields=[mk_ival("s", "String", default=S()), mk_ival("l", "[String!]", default=["list", [S()]])]))
+        _add_type(
+            sm,
+            mk_type(
+                "enum",
+                "S%sE" % tag,
+                values=[{"name": "KEEP"}, {"name": "GONE", "deprecation": {"reason": c}, "applied": [[dname, [["s", S()]]]]}],
+            ),
+        )
+        _qfield(
+            sm,
+            mk_field(
+                "s" + tag,
+                "S%sE" % tag,
+                args=[
+                    mk_ival("a", "String", default=S()),
+                    mk_ival("l", "[String]", default=["list", [S(), ["str", "x"]]]),
+                    mk_ival("o", "S%sI" % tag, default=["obj", [["s", S()]]]),
+                ],
+                applied=[[dname, [["s", S()], ["l", ["list", [S()]]]]]],
+            ),
+        )
+        _qfield(sm, mk_field("s%sOld" % tag, "Int", deprecation={"reason": c}))
+
+    return f
+
+
 def _each_describable(sm):
     for t in sm["types"]:
         yield t
@@ -321,7 +406,7 @@ def _each_describable(sm):
 
 
 def _p_desc(form):
-    text = DESCRIPTIONS[form]
+    text = DESCRIPTIONS[form] if form in DESCRIPTIONS else EXTRA_DESCRIPTIONS[form]
 
     def p(sm):
         for el in _each_describable(sm):
@@ -418,10 +503,13 @@ def p_schema_names(sm):
 # registry (order = order of application = enumeration order)
 
 FEATURES = []
+EXTRA = {}  # extra feature name -> carriers it is paired with
 
 
-def _reg(name, fn, post=False):
+def _reg(name, fn, post=False, extra=None):
     FEATURES.append((name, fn, post))
+    if extra is not None:
+        EXTRA[name] = list(extra)
 
 
 _reg("k:obj", f_obj)
@@ -442,6 +530,7 @@ _reg("dep:field", f_dep_field)
 _reg("dep:enum", f_dep_enum)
 _reg("dep:empty", f_dep_empty)
 _reg("dep:all", f_dep_all)
+_reg("dep:iface", f_dep_iface)
 _reg("dir:def", f_dir_def)
 _reg("dir:exec", f_dir_exec)
 _reg("dir:vardef", f_dir_vardef)
@@ -459,8 +548,15 @@ _reg("schema:explicit", p_schema_explicit, post=True)
 _reg("schema:names", p_schema_names, post=True)
 for _form in DESCRIPTIONS:
     _reg("desc:" + _form, _p_desc(_form), post=True)
+DESC_CARRIERS = ["k:obj", "k:iface", "k:union", "k:enum", "k:input", "k:scalar", "k:mutation", "dep:enum", "dir:def", "dir:applied"]
+STRING_CARRIERS = ["dir:applied", "schema:names"]
+for _name in STRING_CONTENTS:
+    _reg("str:" + _name, _f_string(_name), extra=STRING_CARRIERS)
+for _form in EXTRA_DESCRIPTIONS:
+    _reg("desc:" + _form, _p_desc(_form), post=True, extra=DESC_CARRIERS)
 
 FEATURE_NAMES = [f[0] for f in FEATURES]
+CORE_NAMES = [n for n in FEATURE_NAMES if n not in EXTRA]
 _BY = {f[0]: f for f in FEATURES}
 _IDX = {n: i for i, n in enumerate(FEATURE_NAMES)}
 
@@ -513,12 +609,22 @@ def with_internals(sm):
 
 
 def feature_sets(k, names=None):
-    """Every subset of the features with <= k elements (incompatible ones skipped), smallest first."""
-    names = list(names) if names is not None else FEATURE_NAMES
+    """Every subset of the CORE features with <= k elements (incompatible ones skipped), smallest first;
+    each EXTRA feature (string / description content classes) alone and with each of its carriers (k >= 2)."""
+    names = list(names) if names is not None else CORE_NAMES
     for r in range(0, k + 1):
         for combo in itertools.combinations(names, r):
             if compatible(combo):
                 yield list(combo)
+        if names is not CORE_NAMES and names != CORE_NAMES:
+            continue
+        if r == 1:
+            for e in EXTRA:
+                yield [e]
+        elif r == 2:
+            for e in EXTRA:
+                for c in EXTRA[e]:
+                    yield [c, e]
 
 
 def selftest():
@@ -530,5 +636,5 @@ def selftest():
         sm_expected(sm)
         sm_to_sdl(sm)
         n += 1
-    assert n == len(FEATURE_NAMES) + 1
+    assert n == len(FEATURE_NAMES) + 1, (n, len(FEATURE_NAMES))
     assert build_sm(["k:obj", "desc:one"]) == build_sm(["desc:one", "k:obj"])
